@@ -155,3 +155,11 @@ package checks
 //@   ensures entry.PathError == nil ==> result.problem.Severity == Fatal
 //@ func ErrorCheck.Check [C01]
 //@   ensures len(result) == 1 && result[0].Severity == c.problem.Severity
+
+// ---------------------------------------------------------------------------------------------
+// C12 (consumer): promql/impossible reports a source exactly when label-flow analysis marked it dead, as a warning.
+//@ func ImpossibleCheck.checkSource [C12]
+//@   ensures !s.IsDead ==> len(problems) == 0
+//@   ensures s.IsDead ==> len(problems) == 1
+//@   ensures s.IsDead ==> problems[0].Severity == Warning
+//@   ensures s.IsDead ==> problems[0].Summary == "dead code in query"
